@@ -8,12 +8,14 @@
 import Serif.Wire
 import Serif.Drive.C04
 import Serif.Drive.C01
+import Serif.Drive.C02
 open Lean Serif.Wire
 
 def dispatch (p fam : String) (c impl : Json) : P Json :=
   match p with
   | "C04" => Serif.Drive.C04.handle fam c impl
   | "C01" => Serif.Drive.C01.handle fam c impl
+  | "C02" => Serif.Drive.C02.handle fam c impl
   | _ => .error s!"unknown property {p}"
 
 def answer (line : String) : Json :=
